@@ -372,3 +372,35 @@ func ruleKeywordPrefix(p *Prog, r *Report, t *Tables, keywords []string, rule st
 		}
 	}
 }
+
+// ruleIDClassCaseClosed: every listed id, re-cased in any way, is still read whole by the id reader: the
+// id pattern admits each of its bytes in both letter cases (checked on the all-upper and all-lower
+// variants, which together contain every byte any re-casing can produce; the pattern is a byte class run).
+func ruleIDClassCaseClosed(p *Prog, r *Report, t *Tables, idPattern string, rule string) {
+	r.Rule(rule, "necessary", 500, "the id reader admits every listed id in every letter case (its pattern accepts the all-upper and all-lower variants whole); otherwise re-casing a listed id changes validity")
+	if idPattern == "" {
+		r.Unknown(rule, "id-pattern", "-", "unresolved anchor: the id reader's pattern / byte class")
+		return
+	}
+	re, err := regexp.Compile(`^(?:` + idPattern + `)$`)
+	if err != nil {
+		r.Unknown(rule, "id-pattern", "-", fmt.Sprintf("id pattern %q does not compile: %v", idPattern, err))
+		return
+	}
+	for _, e := range t.allIDs() {
+		bad := ""
+		// a trailing '+' is not part of the id the scanner reads: it is the operator that follows it
+		id := strings.TrimSuffix(e.ID, "+")
+		for _, v := range []string{strings.ToUpper(id), strings.ToLower(id), id} {
+			if !re.MatchString(v) {
+				bad = v
+				break
+			}
+		}
+		if bad != "" {
+			r.Bad(rule, e.List+":"+e.ID, p.pos(e.Pos), fmt.Sprintf("%s id %q: the variant %q is not read whole by the id reader (pattern %s)", e.List, e.ID, bad, idPattern))
+		} else {
+			r.OK(rule, e.List+":"+e.ID, p.pos(e.Pos), "admitted in both cases", "", false)
+		}
+	}
+}
